@@ -145,6 +145,9 @@ func c14Emits(p *core.Program, fn *ssa.Function) []c14Emit {
 			if hdr == nil || ib == hdr || !hdr.Dominates(ib) {
 				continue
 			}
+			if g.Threaded {
+				continue // a flag: the guards of the edge that sets it are listed in its place
+			}
 			v := g.If.Cond
 			truth := g.Idx == 0
 			for {
